@@ -748,6 +748,62 @@ func (c *Ctx) c04Recover(rule string) {
 		}
 		return false
 	}
+	// the recovered panic surfaces as the function's error result: the deferred handler stores into the very cell the
+	// function's results are read from when it returns through the recover path (a named result). Handing the handler
+	// the address of an ordinary local leaves the results at their zero values: (nil, nil) - fabricated data.
+	surfaces := func(fn *ssa.Function) bool {
+		if fn.Recover == nil {
+			return false
+		}
+		ret, isRet := fn.Recover.Instrs[len(fn.Recover.Instrs)-1].(*ssa.Return)
+		ei := core.ErrorResultIndex(fn.Signature)
+		if !isRet || ei < 0 || ei >= len(ret.Results) {
+			return false
+		}
+		ld, isLoad := ret.Results[ei].(*ssa.UnOp)
+		if !isLoad || ld.Op != token.MUL {
+			return false
+		}
+		slot, isAlloc := ld.X.(*ssa.Alloc)
+		if !isAlloc {
+			return false
+		}
+		for _, ci := range core.Calls(fn) {
+			d, ok := ci.(*ssa.Defer)
+			if !ok {
+				continue
+			}
+			if mc, ok := d.Call.Value.(*ssa.MakeClosure); ok {
+				target, _ := mc.Fn.(*ssa.Function)
+				for i, b := range mc.Bindings {
+					if b != ssa.Value(slot) || target == nil || i >= len(target.FreeVars) {
+						continue
+					}
+					for _, r := range core.Referrers(target.FreeVars[i]) {
+						if st, isSt := r.(*ssa.Store); isSt && st.Addr == ssa.Value(target.FreeVars[i]) {
+							return true
+						}
+					}
+				}
+				continue
+			}
+			target := core.StaticCallee(d)
+			if target == nil {
+				continue
+			}
+			for i, a := range d.Call.Args {
+				if a != ssa.Value(slot) || i >= len(target.Params) {
+					continue
+				}
+				for _, r := range core.Referrers(target.Params[i]) {
+					if st, isSt := r.(*ssa.Store); isSt && st.Addr == ssa.Value(target.Params[i]) {
+						return true
+					}
+				}
+			}
+		}
+		return false
+	}
 	n := 0
 	for _, fn := range c.P.ScopeFuncs() {
 		if !c.P.InPkg(fn, "wire") {
@@ -765,6 +821,9 @@ func (c *Ctx) c04Recover(rule string) {
 				continue
 			}
 			n++
+			if hasRecover(fn) {
+				R.Check(surfaces(fn), rule, fkey(fn)+":recovered-panic-is-reported:"+callDescr(ci), c.at(ci), "a recovered panic is reported as the error of that call (never as a successful result)", "the deferred handler stores into the cell the error result is read from on the recover path", "the deferred recover handler does not write the function's error result (e.g. it is handed the address of a local): after a codec panic the function returns its zero results - a nil value with a nil error is handed to the handler as if it had been decoded")
+			}
 			R.Check(hasRecover(fn), rule, fkey(fn)+":recovers:"+callDescr(ci), c.at(ci), "a panic while decoding client bytes or inside a statement function is contained (reported as an error of that command), it never ends the server process", what+" runs under a deferred recover in "+fkey(fn), what+" in "+fname(fn)+" runs without a deferred recover: a panic (pgx codecs panic on some truncated binary arrays / ranges / records sent by the client) is not recovered on the simple-query path and terminates the whole process")
 		}
 	}
